@@ -145,6 +145,14 @@ theorem c20_x_filter_released_once :
     doFetchFilterPool = ["dp := acquireDocFieldsFilter(req.FieldsFilter)", "defer releaseDocFieldsFilter(dp)"] := by
   decide
 
+/-- the pooled filter carries nothing from one fetch to the next: `acquire` sets the request's filter
+unconditionally (nil included), `release` clears it - so `filterFields` always works with the list of its own
+request, as the model does -/
+theorem c20_x_filter_state_per_request :
+    acquireFilterStmts = ["dp := docFieldsFilterPool.Get().(*docFieldsFilter)",
+      "if dp.decoder == nil { dp.decoder = insaneJSON.Spawn() }", "dp.filter = filter", "return dp"] ∧
+    releaseFilterStmts = ["dp.filter = nil", "docFieldsFilterPool.Put(dp)"] := by decide
+
 /-- `tryParseFieldsFilter`: parse with a nil mapping, first `*parser.PipeFields`, `AllowList = !Except` -/
 theorem c20_x_parse_shape :
     parseFilterSteps = ["q, err := parser.ParseSeqQL(query, nil)", "if err != nil { return FetchFieldsFilter{} }",
